@@ -1,6 +1,7 @@
 package main
 
 import (
+	"go/types"
 	"strings"
 
 	"golang.org/x/tools/go/ssa"
@@ -41,6 +42,15 @@ func feederFuncs(w *World, r *Run, rule, fp string) (*feedFuncs, bool) {
 				for _, m := range w.modFns {
 					if m.Object() == obj && m.Synthetic == "" {
 						return m
+					}
+				}
+				// a method value of an interface value (s.ConsistencyProof with s a feeder.Source): the method of the concrete
+				// type the bound receiver was made from
+				if fo, ok := obj.(*types.Func); ok && len(t.Args) > 0 {
+					if ct := concreteType(t.Args[0]); ct != nil {
+						if m := w.prog.LookupMethod(ct, fo.Pkg(), fo.Name()); m != nil && m.Blocks != nil {
+							return m
+						}
 					}
 				}
 			}
